@@ -347,7 +347,7 @@ def impl(case):
         jdd = _guard(lambda: JointDegreeDistributionFromNetwork.get_joint_degree_distribution(G))
 
         def rows():
-            X = JointExcessJointDegree({ToolsNames.NETWORK: G, ToolsNames.EDGE_NAMES: list(names)})
+            X = c13.extractor_with_history(c, G)
             q = JointExcessFromEjk.get_excess_joint_distributions(X.get_ejks())
             return [[names.index(n), _dobs(d)] for n, d in q.items()]
         fwd = jdd if core.is_exc(jdd) else _guard(
